@@ -356,6 +356,22 @@ func (d *Driver) unmarshalOne(ti TypeInfo, b []byte, valid bool, lbl string, rem
 	a0 := tr.TotalAlloc()
 	guard(&e.St, &e.Note, func() { err = dst.(unmarshaler).Unmarshal(in) })
 	e.Alloc = int(tr.TotalAlloc() - a0)
+	if e.Alloc > 64*len(b)+4096 && e.St != "panic" {
+		// TotalAlloc is process-wide: a runtime-internal allocation (stack growth, a timer, the scavenger) can fall into the window.
+		// An allocation driven by the input is deterministic: measure again on fresh destinations and keep the smallest reading.
+		for k := 0; k < 3; k++ {
+			d2 := d.Build(ti, pre)
+			in2 := append([]byte{}, b...)
+			x0 := tr.TotalAlloc()
+			func() {
+				defer func() { _ = recover() }()
+				_ = d2.(unmarshaler).Unmarshal(in2)
+			}()
+			if x := int(tr.TotalAlloc() - x0); x < e.Alloc {
+				e.Alloc = x
+			}
+		}
+	}
 	if e.St == "" {
 		e.St = errStatus(err)
 		if err != nil {
